@@ -92,6 +92,49 @@ def fixed_point(ctx, drv, text, label):
         ctx.disagree('dump', scen, {'text': d['text'][:300]}, {'text': rep['text'][:300]})
 
 
+def redump(ctx, drv, before, after, label):
+    """entry OBJECTS that were written once, then changed in place (as save_manifests re-points the MANIFEST entry of a renamed
+    sub-Manifest, and update moves entries between Manifests), then written again: the second text is the text of what the
+    objects hold now"""
+    import datetime
+    import io
+    import gemato.manifest as gm
+    scen = {'op': 'dump', 'entries': after, 'sort': False, 'written_before_as': before}
+    ctx.count('stream:' + label)
+    m = gm.ManifestFile()
+    try:
+        m.entries = [textimpl.make_entry(c) for c in before]
+        m.dump(io.StringIO(), sign_openpgp=False)
+        s = lambda a: ''.join(chr(x) for x in a)
+        for obj, c in zip(m.entries, after):
+            if c[0] == 'TIMESTAMP':
+                obj.ts = datetime.datetime(*c[1])
+            elif c[0] == 'IGNORE':
+                obj.path = s(c[1])
+            else:
+                if c[0] == 'AUX':
+                    obj.aux_path = s(c[1])
+                    obj.path = os.path.join('files', s(c[1]))
+                else:
+                    obj.path = s(c[1])
+                obj.size = c[2]
+                obj.checksums = {s(k): s(v) for k, v in c[3]}
+        out = io.StringIO()
+        m.dump(out, sign_openpgp=False)
+        text = out.getvalue()
+    except Exception as e:
+        ctx.fail('dump-raised', scen, textimpl.classify_exc(e))
+        return
+    model_text = uncps(drv.ask({'op': 'dump', 'entries': after, 'sort': False})['text'])
+    ctx.case(scen, True, {'before': before[:2], 'after': after[:2], 'n': len(after)})
+    if text != model_text:
+        ctx.fail('second-dump-is-not-the-text-of-the-current-entries', scen, f'{text[:200]!r} vs {model_text[:200]!r}')
+        return
+    back = textimpl.impl_load_stringio(text)
+    if back != {'entries': after, 'signed': None}:
+        ctx.fail('roundtrip-differs', scen, json.dumps(back)[:400])
+
+
 def cp_tables(ctx, drv):
     """T2: every code point: escaped or not / is a separator (model vs running interpreter),
     and every code point embedded between hex-digit-like neighbours round-trips"""
@@ -139,7 +182,8 @@ def cp_tables(ctx, drv):
 def run(ctx):
     ctx.rule = ('entry lists: random over all eight tags, hostile paths (whitespace, controls, backslash, astral, surrogates), '
                 'sizes to 2**70, 0-10 checksums; every code point embedded between hex-like neighbours; accepted texts of the '
-                'C09 grammar/mutation generators (fixed point); each compression format through real files. '
+                'C09 grammar/mutation generators (fixed point); each compression format through real files; entry objects written, '
+                'changed in place (path, size, checksums, timestamp) and written again. '
                 'non-trivial = distinct non-empty entry list / accepted text with at least one entry')
     ctx.assumptions = ['gzip/bz2/lzma round-trip is exercised, not proved', 'non-ASCII decimal digits: model abstains']
     ctx.tmp = common.scratch_dir()
@@ -158,6 +202,18 @@ def run(ctx):
         for i in range(n):
             es = gen_text.rand_entries(ctx.rng, allow_surrogates=(i % 5 == 0))
             roundtrip(ctx, drv, es, 'random-entries', sort=(i % 3 == 0), suffix=SUFFIXES[i % 5])
+        for i in range(600 if ctx.tier == 'quick' else 10000):
+            before = gen_text.rand_entries(ctx.rng)
+            after = []
+            for c in before:
+                c2 = gen_text.rand_entry(ctx.rng)
+                for _ in range(20):
+                    if c2[0] == c[0]:
+                        break
+                    c2 = gen_text.rand_entry(ctx.rng)
+                after.append(c2 if c2[0] == c[0] else c)
+            if before:
+                redump(ctx, drv, before, after, 'written-changed-written-again')
         n = 2500 if ctx.tier == 'quick' else 50000
         for i in range(n):
             text, _ = gen_text.grammar_text(ctx.rng)
